@@ -43,7 +43,7 @@ def seeded() -> str:
         m = json.load(open(mp))
         patch = open(os.path.join(d, name, 'patch.diff')).read()
         files = sorted(set(re.findall(r'^\+\+\+ b/(\S+)', patch, re.M)))
-        cr = m.get('check_result', {}).get('outcome', {})
+        cr = (m.get('check_result') or {}).get('outcome', {})
         caught = [p for p, r in cr.items() if r.get('status') == 'CAUGHT']
         first = next((r.get('first_violation', '') for r in cr.values() if r.get('status') == 'CAUGHT'), '')
         first = first.replace('violation: ', '')[:150]
